@@ -214,6 +214,13 @@ def id_sweep(ctx: Ctx) -> None:
                             probe(ctx, live, ty, data[:c], "strict-prefix")
                 for rep in range(4 if ctx.thorough else 2):
                     probe(ctx, live, ty, bytes(rng.getrandbits(8) for _ in range(rng.randint(1, 24))), "random-bytes")
+                # a string field whose bytes are not UTF-8 (a Latin-1 device name, a name cut inside a multi-byte character): undecodable for
+                # either protobuf back end, though they raise different exception classes for it
+                sf = [fd for fd in cls.DESCRIPTOR.fields if fd.type == fd.TYPE_STRING and not fd.is_repeated and fd.number < 16]
+                if sf:
+                    fd = sf[k % len(sf)]
+                    bad = (b"caf\xe9", b"\xff\xfe", b"K\xc3")[k % 3]
+                    probe(ctx, live, ty, bytes([fd.number << 3 | 2, len(bad)]) + bad, "invalid-utf8-in-string-field")
             ctx.res.count(f"sessions/{framing}", live.n_sessions)
             if sim.harness_errors:
                 ctx.res.inconclusive.append("harness: " + sim.harness_errors[0][-300:])
